@@ -8,6 +8,7 @@ Domain   server script = (release point, outcome).  Outcome: JSON with tag_name 
          (when it loads the history), when the final join starts, 0.3 s / 0.9 s into the join, 1.5 s (after the join
          timed out), never.  Command: invocations of both CLI groups with exit codes 0, 10, 11, 21, 30 and 2.
          A few cases run the real entry point in a subprocess (interpreter shutdown with a hung daemon thread).
+         Later additions: release tags with 1-5 components; every command of both groups against a server that never answers.
 Oracle   reference run = same command on the same world state with a stub that fails immediately.  Exit code equal;
          stdout equal, or equal plus exactly the one notice line at the very end and only if the scripted version is
          a newer final release that arrived before the join timed out; no exception escapes into the command; extra
